@@ -10,8 +10,11 @@ package internal
 // hence no harness-made happens-before edges).
 
 import (
+	"io"
+
 	"encoding/json"
 	"fmt"
+	"github.com/pterm/pterm"
 	"net/http"
 	"net/http/httptest"
 	"os"
@@ -31,6 +34,7 @@ import (
 	"github.com/markusressel/fan2go/internal/configuration"
 	"github.com/markusressel/fan2go/internal/fans"
 	"github.com/markusressel/fan2go/internal/persistence"
+	"github.com/markusressel/fan2go/internal/util"
 	"github.com/markusressel/fan2go/internal/verifshim/mc"
 	"github.com/markusressel/fan2go/internal/verifshim/vsignal"
 	"github.com/md14454/gosensors"
@@ -70,6 +74,9 @@ func TestVX_raceChild(t *testing.T) {
 		panic(err)
 	}
 	events := filepath.Join(job.Dir, "events.log")
+	// Log lines go nowhere: every write to os.Stdout passes through the file's fdmutex (atomic operations), which the
+	// race detector counts as synchronisation between ALL logging goroutines and which would hide races between them.
+	pterm.SetDefaultOutput(io.Discard)
 	synctest.Test(t, func(t *testing.T) {
 		hw := filepath.Join(job.Dir, "sys", "hwmon0")
 		for ch := 1; ch <= 2; ch++ {
@@ -85,12 +92,17 @@ func TestVX_raceChild(t *testing.T) {
 		fileRpm := filepath.Join(job.Dir, "sys", "filefan", "rpm")
 		vxWriteInt(filePwm, 80)
 		vxWriteInt(fileRpm, 1200)
+		// fanF: a second fan (besides fanA) that uses the built-in default control algorithm
+		filePwmF := filepath.Join(job.Dir, "sys", "filefanF", "pwm")
+		fileRpmF := filepath.Join(job.Dir, "sys", "filefanF", "rpm")
+		vxWriteInt(filePwmF, 90)
+		vxWriteInt(fileRpmF, 1300)
 		// two more file fans; in scenario "nopwm" their PWM files are unreadable at start (no PWM read-back -> default map)
 		// and nothing is stored for them
 		var extraFans string
 		parallel := "true"
-		if job.Scenario == "nopwm" || job.Scenario == "nopwm-parallel" {
-			if job.Scenario == "nopwm" {
+		if strings.HasPrefix(job.Scenario, "nopwm") {
+			if job.Scenario != "nopwm-parallel" {
 				parallel = "false"
 			}
 			for _, id := range []string{"fanD", "fanE"} {
@@ -124,6 +136,9 @@ fans:
     curve: lin
     controlAlgorithm: {direct: {maxPwmChangePerCycle: 10}}
     file: {path: %s, rpmPath: %s}
+  - id: fanF
+    curve: lin
+    file: {path: %s, rpmPath: %s}
 %ssensors:
   - id: s
     hwmon: {platform: vxchip, index: 1}
@@ -134,11 +149,11 @@ curves:
     pid: {sensor: s, setPoint: 60, p: -0.05, i: -0.005, d: -0.005}
   - id: shared
     function: {type: maximum, curves: [lin, pidc]}
-`, db, parallel, vxTempRate, vxRpmRate, vxTick, filePwm, fileRpm, extraFans)
+`, db, parallel, vxTempRate, vxRpmRate, vxTick, filePwm, fileRpm, filePwmF, fileRpmF, extraFans)
 		os.WriteFile(cfg, []byte(yaml), 0644)
 		pers := persistence.NewPersistence(db)
-		for _, id := range []string{"fanA", "fanB", "fanC"} {
-			if (job.Scenario == "init" || job.Scenario == "nopwm" || job.Scenario == "nopwm-parallel") && id == "fanA" {
+		for _, id := range []string{"fanA", "fanB", "fanC", "fanF"} {
+			if (job.Scenario == "init" || strings.HasPrefix(job.Scenario, "nopwm")) && id == "fanA" {
 				continue // fanA runs its initialisation sequence while the API is polled
 			}
 			data := map[int]float64{}
@@ -157,7 +172,7 @@ curves:
 		vsignal.DefaultAction = func(sig os.Signal) { os.Exit(143) }
 		var nApi, nMet int64
 		rest := api.CreateRestService()
-		paths := []string{"/fan/", "/fan/fanA/", "/fan/fanB/", "/fan/fanC/", "/sensor/", "/sensor/s/", "/curve/", "/curve/shared/", "/curve/lin/", "/curve/pidc/", "/alive/"}
+		paths := []string{"/fan/", "/fan/fanA/", "/fan/fanB/", "/fan/fanC/", "/fan/fanF/", "/sensor/", "/sensor/s/", "/curve/", "/curve/shared/", "/curve/lin/", "/curve/pidc/", "/alive/"}
 		go func() {
 			time.Sleep(time.Duration(job.ApiOffsetUs) * time.Microsecond)
 			for {
@@ -191,6 +206,18 @@ curves:
 			vxAppend(events, stamp()+" daemon still running 30 virtual minutes after SIGTERM")
 			os.Exit(99)
 		}()
+		if job.Scenario == "nopwm-late" {
+			// start-up stagger (replay/experiments only, not part of the enumerated schedules): the controllers of fanD and
+			// fanE get going 700 virtual ms after the others (their first file accesses are delayed). No shared state and
+			// no synchronisation in the hook: it must not add happens-before edges. It turned out not to widen what the
+			// race detector sees: consecutive bolt sessions synchronise through syscall's global mmap mutex.
+			util.VerifFileOp = func(op string, path string, value int) (bool, int, error) {
+				if (strings.Contains(path, "/fanD/") || strings.Contains(path, "/fanE/")) && time.Since(t0) < 1500*time.Millisecond {
+					time.Sleep(700 * time.Millisecond)
+				}
+				return false, 0, nil
+			}
+		}
 		viper.Reset()
 		configuration.InitConfig(cfg)
 		p := configuration.DetectAndReadConfigFile()
@@ -274,6 +301,23 @@ func vxParseRaces(text string) (pairs [][2]string, fatal []string) {
 							if src := vxSrcLine(lm[1], n); src != "" {
 								top = fn + " at `" + src + "`"
 							}
+						}
+					}
+					// internal/util holds shared helpers (PidLoop, ...): the state belongs to the caller, so the site of the
+					// CURRENT access (its stack is exact; the stack of the previous access is restored from a bounded
+					// history and is not used for this) is qualified with the first caller outside internal/util.
+					if si == 0 && strings.HasPrefix(fn, "internal/util.") {
+						for _, l2 := range lines[li+1:] {
+							m2 := vxRaceFrame.FindStringSubmatch(l2)
+							if m2 == nil {
+								continue
+							}
+							c := strings.TrimPrefix(m2[1], "github.com/markusressel/fan2go/")
+							if strings.HasPrefix(c, "internal/util.") || strings.Contains(c, "/verifshim/") {
+								continue
+							}
+							top += " (called from " + vxClosureSuffix.ReplaceAllString(c, "") + ")"
+							break
 						}
 					}
 					break
@@ -401,7 +445,7 @@ func TestVX_C20(t *testing.T) {
 							continue
 						}
 					}
-					if sc == "init" || sc == "nopwm" {
+					if sc == "init" || sc == "nopwm" || sc == "nopwm-late" {
 						// the initialisation sequence takes about 9 virtual minutes: fewer, slower pollers
 						run = 9*60*1000 + 30000
 						if per[0] < 1000 || (!mc.Thorough() && (ai != mi || ai%2 == 1)) {
@@ -452,5 +496,5 @@ func TestVX_C20(t *testing.T) {
 		fns = fns[:4]
 	}
 	rep.Sample(map[string]any{"schedule_example": jobs[0].String(), "race_pairs_seen_example": fns})
-	rep.Note("one race-instrumented OS process per schedule; activities: 1 sensor monitor, 3 controllers (RPM monitor + control loop each; shared function/pid/linear curves and sensor), REST list+item endpoints, Prometheus gather; distinct_nontrivial = distinct unordered pairs of top fan2go frames in race reports")
+	rep.Note("one race-instrumented OS process per schedule; activities: 1 sensor monitor, 4 controllers (RPM monitor + control loop each; two of them with the default control algorithm; shared function/pid/linear curves and sensor), REST list+item endpoints, Prometheus gather; distinct_nontrivial = distinct unordered pairs of top fan2go frames in race reports")
 }
